@@ -71,7 +71,11 @@ def gen(pids):
     mg = os.path.join(V, "build", "tools", "mutgen")
     if not os.path.exists(mg):
         os.makedirs(os.path.dirname(mg), exist_ok=True)
-        modfile = os.path.join(V, "build", "tools", "mod", "go.mod")
+        md = os.path.join(V, "build", "tools", "mutgen-mod")
+        os.makedirs(md, exist_ok=True)
+        modfile = os.path.join(md, "go.mod")
+        open(modfile, "w").write("module verif\n\ngo 1.24.2\n\nrequire github.com/AdguardTeam/golibs v0.0.0\n\nreplace github.com/AdguardTeam/golibs => /repo\n")
+        open(os.path.join(md, "go.sum"), "w").write(open("/repo/go.sum").read())
         r = sh(["go", "build", "-modfile=" + modfile, "-o", mg, "./tools/mutgen"], cwd=V, env=ENV)
         if r.returncode != 0:
             raise SystemExit(r.stdout)
